@@ -189,7 +189,7 @@ def run_impl(case, norm=None):
         lay = case.get("layout") or ("contig", "contig")
         junk = 0 if case["eos"] is None else case["eos"]
         ref = _tensor_l(case["ref"], R, bf, lay[0], junk)
-        hyp = ref if case.get("alias") else _tensor_l(case["hyp"], H, bf, lay[1], junk)
+        hyp = ref if (case.get("alias") and case["ref"] == case["hyp"]) else _tensor_l(case["hyp"], H, bf, lay[1], junk)
         with warnings.catch_warnings():
             warnings.simplefilter("ignore")
             fn = _fn(case, norm)
@@ -966,7 +966,6 @@ def run(chk, cases=None):
         if c["api"] == "prefix" and c["eos"] is not None and c["include_eos"] and any(
                 c["eos"] in h[:-1] for h in c["hyp"]):
             chk.count("prefix_include_eos_with_eos_before_last_row")
-    chk.extra["t_impl_s"] = round(__import__("time").time() - chk.t0, 2)
     # the Coq evaluation runs beside the metamorphic phase; terms that take seconds each get their own shards
     slow = [i for i, c in enumerate(cases) if c.get("long") or c.get("slow")]
     fast = [i for i in range(len(cases)) if i not in set(slow)]
@@ -992,15 +991,12 @@ def run(chk, cases=None):
     chk.extra["metamorphic_cases"] = meta_n
     chk.extra["metamorphic_failures"] = len(meta_fail)
 
-    import time as _t
-    _t0 = _t.time()
     res = [True] * len(cases)
     for i, ok in zip(fast, fut_fast.result()):
         res[i] = ok
     for i, ok in zip(slow, fut_slow.result()):
         res[i] = ok
     pool.shutdown()
-    chk.extra["wait_coq_s"] = round(_t.time() - _t0, 2)
     bad = [i for i, ok in enumerate(res) if not ok]
     chk.extra["model_disagreements"] = len(bad)
 
@@ -1045,6 +1041,72 @@ def run(chk, cases=None):
     if bad and not found_concrete:
         rec, _ = judge(chk, cases[bad[0]], outs[bad[0]])
         chk.report(rec, no_failing_input=True)
+    source_tie(chk, cases, outs)
+
+
+# ------------------------------------------------------------------------------------------
+# source tie: the translated Python text of _string_matching, interpreted inside Coq, on the run's cases
+# ------------------------------------------------------------------------------------------
+IMPORTS_SRC = IMPORTS + "From PV Require C01.SrcRun.\n"
+SRC_TIE_SAMPLE = 1500
+SRC_THEOREMS = ["c01_source_loop_body_is_step_row", "c01_source_loop_is_rows", "c01_source_edit_distance_is_model",
+                "c01_source_edit_distance_is_lev"]
+
+
+def _src_tie_eligible(case, out):
+    """plain edit-distance calls (return_mask = return_prf_dsts = return_mistakes = False) whose costs are exact
+    rationals k/scale in float32 and whose tensors are small enough for the interpreter (its cost is cubic in R)"""
+    N, R, H = _dims(case)
+    return (case["api"] == "ed" and _usable(case, out) and _exact_scale(case) and not case.get("long")
+            and not case.get("slow") and R <= 12 and H <= 12)
+
+
+def src_term(case, out):
+    N, R, H = _dims(case)
+    ref, hyp = _mat(case["ref"], R, case["batch_first"]), _mat(case["hyp"], H, case["batch_first"])
+    obs = cl([_q(x) for x in out["val"]])
+    return f"SrcRun.src_edit_distance_check {_cfg(case)} {cz(_scale(case))} {cn(N)} {ref} {hyp} {obs}"
+
+
+def source_tie(chk, cases, outs):
+    """run the translated source (PV.Gen.C01Src: the blocks in sequence and the whole body) inside Coq on a sample of the
+    plain edit-distance cases of this run: validates the translator, MiniPy's semantics, ext01 and the MiniTorch definitions
+    against CPython + torch; independent of whether the tie lemmas still compile"""
+    from vlib import CoqError
+    import time
+    idx = [i for i, (c, o) in enumerate(zip(cases, outs)) if _src_tie_eligible(c, o)]
+    if len(idx) > SRC_TIE_SAMPLE:  # evenly spaced over the streams
+        step = len(idx) / SRC_TIE_SAMPLE
+        idx = [idx[int(j * step)] for j in range(SRC_TIE_SAMPLE)]
+    if not idx:
+        chk.extra["source_tie_run"] = {"cases": 0, "disagreements": 0}
+        return
+    t0 = time.time()
+    try:
+        res = coq_eval_bools(chk.workdir, IMPORTS_SRC, [src_term(cases[i], outs[i]) for i in idx], shard=24, tag="src")
+    except CoqError as e:
+        chk.extra["source_tie_run"] = "not evaluated: " + str(e)[-400:]
+        return
+    bad = [idx[j] for j, ok in enumerate(res) if not ok]
+    chk.extra["source_tie_run"] = {
+        "cases": len(idx), "disagreements": len(bad), "wall_s": round(time.time() - t0, 1),
+        "with_eos": sum(1 for i in idx if cases[i]["eos"] is not None),
+        "include_eos": sum(1 for i in idx if cases[i]["include_eos"]), "norm": sum(1 for i in idx if cases[i]["norm"]),
+        "batch_first": sum(1 for i in idx if cases[i]["batch_first"]),
+        "uniform_costs": sum(1 for i in idx if len(set(cases[i]["costs"])) == 1),
+        "zero_width": sum(1 for i in idx if 0 in _dims(cases[i])[1:]),
+        "max_R": max(_dims(cases[i])[1] for i in idx), "max_H": max(_dims(cases[i])[2] for i in idx)}
+    chk.count("source_tie_cases", len(idx))
+    if bad:
+        i = bad[0]
+        chk.report({"case": cases[i], "impl": outs[i],
+                    "what": "the Python source of _string_matching as translated to MiniPy and interpreted in Coq "
+                            "(PV.C01.SrcRun.src_edit_distance_check, torch calls = PV.MiniTorch.OpsC01/OpsC07) does not "
+                            "reproduce the implementation's output: translator / interpreter / ext01 / MiniTorch no longer "
+                            "describe the code",
+                    "disagreeing_cases": len(bad),
+                    "correspondence": "tie:C01:py2coq+MiniPy.Interp+MiniTorch:_string_matching",
+                    "theorems_at_stake": SRC_THEOREMS}, no_failing_input=True)
 
 
 def replay(chk, path):
